@@ -27,3 +27,20 @@ for d in sorted(glob.glob('/verif/seeded/*')):
     res[key]=det
 sh('git checkout -q -- . && git clean -fdq',cwd=W)
 sh('git -C /repo worktree remove --force %s'%W)
+import datetime
+out=os.environ.get('RESULTS')
+if out:
+    old={}
+    if os.path.exists(out):
+        for l in open(out):
+            m=re.match(r'\| (C\d+-m\d) \|',l)
+            if m: old[m.group(1)]=l
+    for key,det in res.items():
+        cells=[]
+        for p,rc,v,t in det:
+            how='MISSED' if rc==0 else ('caught: monitor (concrete replay)' if v and 'no-failing' not in v[0] else 'caught: correspondence/proof only (no-failing-input-found)')
+            cells.append('%s: %s%s'%(p,how,(' - '+t[0][:160].replace('|','/')) if t else ''))
+        old[key]='| %s | %s |\n'%(key,' ; '.join(cells))
+    with open(out,'w') as f:
+        f.write('# Which check catches which seeded change\n\nProduced by `tools_seedtest.py` (each change applied to a scratch worktree, `VERIF_REPO=<worktree> ./check <property>`).\n\n| seeded change | result of the check of its property |\n|---|---|\n')
+        for k in sorted(old): f.write(old[k])
